@@ -641,7 +641,7 @@ func c05GenOp(r *rng, ss ast.Schemas, quirks int) c05Op {
 		}
 		return c05Op{Name: "rename", Pkg: s.Package, Obj: from, To: to}
 	case n < 50:
-		return c05Op{Name: "prefix", Prefix: pick(r, []string{"X", "Pre", "x_", "", "a b"})}
+		return c05Op{Name: "prefix", Prefix: pick(r, []string{"X", "Pre", "x_", "", "a-b"})}
 	case n < 70:
 		dst := s
 		if r.chance(30) {
